@@ -761,6 +761,14 @@ theorem wb_caller_file_complete_partial (hc : (wbrunWith claimF s ops).closed = 
 
 end Accounting
 
+/-- what `flush(force)` does to one image segment in the machine is the hand-over decision `shouldHand` of the loop in
+    `NITFWriter.flush`: non-forced flush = `force := false`, close = `force := true` -/
+theorem hand_iff_shouldHand (g : BSeg) (force claims : Bool) :
+    (if (force || claims) = true then g.hand else g) =
+      if shouldHand g.handed force claims = true
+      then { g with blocks := g.blocks.map (fun b => { b with deliv := b.pix }), handed := true } else g := by
+  cases hh : g.handed <;> cases force <;> cases claims <;> simp [BSeg.hand, shouldHand, hh]
+
 /-- the code's test - every block claims - is sound (trivially: it is the reference) -/
 theorem claims_sound : ∀ g : BSeg, g.claims = true → g.claims = true := fun _ h => h
 
